@@ -99,7 +99,28 @@ def r1_reverse_lookup(ctx):
         band = d[3] if d[2][0] == "c" else d[2]
         if not (band[0] == "bin" and band[1] == "BitAnd"):
             return None
-        sides = [band[2], band[3]]
+        def as_lookup(x):
+            # the step tables read directly (`TABLE[sq]`, `TABLE.get_unchecked(sq)`) instead of through get_attacks
+            y = x
+            while y[0] in ("*", "&"):
+                y = y[1]
+            tab = sq = None
+            if y[0] == "call" and y[1].rsplit("::", 1)[-1] in ("get_unchecked", "index") and len(y[2]) == 2:
+                tab, sq = y[2]
+            elif y[0] == "idx":
+                tab, sq = y[1], y[2]
+            if tab is None:
+                return x
+
+            def bare(t):
+                while t[0] in ("*", "&", "cast"):
+                    t = t[1] if t[0] != "cast" else t[2]
+                return t
+            tb = bare(resolve_promoted(prog, bare(tab)))
+            if tb[0] == "c" and tb[3] and table_kind(prog, tb[3]) in ("king", "knight", "white_pawn", "black_pawn", "pawn"):
+                return ("call", EXT_NONMAGIC, (tab if bare(tab)[0] == "c" else tb, bare(sq)))
+            return x
+        sides = [as_lookup(band[2]), as_lookup(band[3])]
         look = [x for x in sides if x[0] == "call" and x[1] in (EXT_MAGIC, EXT_NONMAGIC)]
         sets = [x for x in sides if x not in look]
         if len(look) != 1 or len(sets) != 1:
